@@ -444,7 +444,7 @@ def run_partial(key, vendor, inp):
     """one shipped PartialGenerator through _run_partial_generator with use_acl=True
     -> dict(status, text, trace, config, exc)   status: ok | unsupported | acl | rejected:<Exc>"""
     from annet.annlib.patching import AclError
-    from annet.generators import _run_partial_generator
+    from annet import generators as ann_generators
     from annet.generators.exceptions import GeneratorError
     from annet.types import GeneratorPartialRunArgs
     cls = gen_classes()[key]
@@ -452,7 +452,7 @@ def run_partial(key, vendor, inp):
     g.inp = inp
     dev = _DEV[vendor]
     try:
-        res = _run_partial_generator(g, GeneratorPartialRunArgs(dev, use_acl=True))
+        res = env.call_private(ann_generators, "_run_partial_generator", g, GeneratorPartialRunArgs(dev, use_acl=True))
     except GeneratorError as e:
         cause = e.__cause__
         if isinstance(cause, AclError):
